@@ -45,8 +45,17 @@ fn run_scenario(sc: &Value, t: &mut Tracer) {
 	let mut st = StaticSoundSettings::new()
 		.start_position(PlaybackPosition::Samples(start as usize))
 		.playback_rate(PlaybackRate(rate_f));
+	// open: the loop region is given as `ls..` (its end is the end of the audio - of the slice)
+	let open = c["open"].as_bool().unwrap_or(false);
+	let lregion = |ls: i64, le: i64| {
+		if open {
+			Region { start: PlaybackPosition::Samples(ls as usize), end: EndPosition::EndOfAudio }
+		} else {
+			region(ls, le)
+		}
+	};
 	if ls >= 0 {
-		st = st.loop_region(region(ls, le));
+		st = st.loop_region(lregion(ls, le));
 	}
 	let mut data = StaticSoundData { sample_rate: RATE, frames: coded_frames(len as usize), settings: st, slice: None };
 	if !whole {
@@ -57,7 +66,7 @@ fn run_scenario(sc: &Value, t: &mut Tracer) {
 		.start_position(PlaybackPosition::Samples(start as usize))
 		.playback_rate(PlaybackRate(rate_f));
 	if ls >= 0 {
-		ss = ss.loop_region(region(ls, le));
+		ss = ss.loop_region(lregion(ls, le));
 	}
 	let (dec, stats) = ScriptDecoder::new(len as usize, vec![pk as usize, 1, (pk as usize).max(2) - 1], early as usize, 0);
 	let dec = dec.with_eos(1); // (a decode call past the end of the stream - which kira must never make - fails)
